@@ -1,1 +1,159 @@
-fn main() {}
+use serde_json::{json, Value};
+use std::time::Instant;
+use vp::engine::*;
+
+fn usage() -> ! {
+    eprintln!("usage: vp <PROPERTY-ID> quick|thorough | vp <PROPERTY-ID> --replay <file>");
+    std::process::exit(2)
+}
+
+fn main() {
+    vp::panics::install_hook();
+    let args: Vec<String> = std::env::args().skip(1).collect();
+    if args.len() < 2 {
+        usage();
+    }
+    let id = args[0].to_uppercase();
+    let reg = vp::props::registry();
+    let Some(def) = reg.iter().find(|d| d.meta.id == id) else {
+        eprintln!("INCONCLUSIVE: no check for property {id}");
+        std::process::exit(2)
+    };
+    let seed: u64 = std::env::var("VERIF_SEED").ok().and_then(|s| s.trim().parse().ok()).unwrap_or(0);
+    let known = load_known();
+
+    // Watchdog: no progress at all for a long time means a hang in harness or code; inconclusive.
+    std::thread::spawn(|| {
+        let mut last = PROGRESS.load(std::sync::atomic::Ordering::Relaxed);
+        let mut idle = 0;
+        loop {
+            std::thread::sleep(std::time::Duration::from_secs(5));
+            let now = PROGRESS.load(std::sync::atomic::Ordering::Relaxed);
+            if now == last {
+                idle += 5;
+            } else {
+                idle = 0;
+                last = now;
+            }
+            if idle >= 600 {
+                println!("INCONCLUSIVE: watchdog: no progress for {idle} s");
+                std::process::exit(2);
+            }
+        }
+    });
+
+    if args[1] == "--replay" {
+        let Some(path) = args.get(2) else { usage() };
+        let cx = Cx { id: id.clone(), tier: Tier::Quick, seed, known };
+        let text = std::fs::read_to_string(path).unwrap_or_else(|e| {
+            eprintln!("INCONCLUSIVE: cannot read {path}: {e}");
+            std::process::exit(2)
+        });
+        let v: Value = serde_json::from_str(&text).unwrap_or_else(|e| {
+            eprintln!("INCONCLUSIVE: cannot parse {path}: {e}");
+            std::process::exit(2)
+        });
+        let phase = v["phase"].as_str().unwrap_or("").to_string();
+        let mut acc = Acc::new();
+        match (def.replay)(&cx, &phase, &v["case"], &mut acc) {
+            Ok(()) => {
+                println!("replay of {path}: property {id} held on this case");
+                std::process::exit(0)
+            }
+            Err(f) if f.sig == "replay-decode" => {
+                eprintln!("INCONCLUSIVE: cannot decode case: {}", f.msg);
+                std::process::exit(2)
+            }
+            Err(f) => {
+                println!("{}", f.msg);
+                if cx.is_known(&f.sig) {
+                    println!("KNOWN-FINDING: property={id} sig={}", f.sig);
+                    std::process::exit(0)
+                }
+                println!("VIOLATION property={id} replay={path}");
+                std::process::exit(1)
+            }
+        }
+    }
+
+    let tier = match args[1].as_str() {
+        "quick" => Tier::Quick,
+        "thorough" => Tier::Thorough,
+        _ => usage(),
+    };
+    let cx = Cx { id: id.clone(), tier, seed, known };
+    let start = Instant::now();
+    let mut acc = Acc::new();
+
+    // Committed regression corpus first.
+    let corpus_dir = format!("{VERIF_DIR}/corpus/{id}");
+    let mut corpus_n = 0u64;
+    if let Ok(rd) = std::fs::read_dir(&corpus_dir) {
+        let mut files: Vec<_> = rd.filter_map(|e| e.ok()).map(|e| e.path()).filter(|p| p.extension().map_or(false, |x| x == "json")).collect();
+        files.sort();
+        for p in files {
+            let Ok(text) = std::fs::read_to_string(&p) else { continue };
+            let Ok(v) = serde_json::from_str::<Value>(&text) else {
+                acc.internal_errors.push(format!("corpus file {} is not JSON", p.display()));
+                continue;
+            };
+            let phase = v["phase"].as_str().unwrap_or("").to_string();
+            let case = v["case"].clone();
+            corpus_n += 1;
+            let mut sub = Acc::new();
+            let ok = sub.run_case(&cx, &format!("corpus:{phase}"), &case, |a| (def.replay)(&cx, &phase, &case, a));
+            if !ok {
+                // keep the original phase so that the replay file decodes.
+                for v in &mut sub.violations {
+                    v.phase = phase.clone();
+                }
+            }
+            acc.merge(sub);
+        }
+    }
+    acc.phase_info("corpus", corpus_n, false, "committed regression inputs replayed");
+
+    acc.merge((def.run)(&cx));
+    let wall = start.elapsed().as_secs_f64();
+
+    let health = (def.health)(&acc);
+    let extra = json!({"corpus_cases": corpus_n, "internal_errors": acc.internal_errors, "health": health});
+    write_evidence(&cx, def.meta, &acc, wall, extra);
+
+    println!(
+        "{id} {}: seed={seed} evaluations={} distinct_nontrivial={} violations={} known_hits={} wall={:.1}s",
+        tier.name(),
+        acc.evals,
+        acc.distinct.len(),
+        acc.violations.len(),
+        acc.known_hits.values().sum::<u64>(),
+        wall
+    );
+    for k in &cx.known {
+        if k.property == id {
+            let n = acc.known_hits.get(&k.sig).copied().unwrap_or(0);
+            println!("KNOWN-FINDING: property={id} sig={} hits={n} {}", k.sig, k.text);
+        }
+    }
+    if !acc.violations.is_empty() {
+        for v in &acc.violations {
+            let path = write_replay(&id, v);
+            println!("--- {} [{}] {}", v.phase, v.sig, v.msg);
+            println!("VIOLATION property={id} replay={path}");
+        }
+        std::process::exit(1);
+    }
+    if !acc.internal_errors.is_empty() {
+        for e in &acc.internal_errors {
+            println!("INCONCLUSIVE: {e}");
+        }
+        std::process::exit(2);
+    }
+    if !health.is_empty() {
+        for h in &health {
+            println!("INCONCLUSIVE: generator health: {h}");
+        }
+        std::process::exit(2);
+    }
+    std::process::exit(0);
+}
